@@ -2,6 +2,7 @@
   Regenerated tie for C16: the literals read from /repo/util/strutil/strutil.go are the ones the
   theorems need.  Re-proved by `decide` on every run; a changed literal breaks this file.
 -/
+import Glb.Generated.StatusStrutil
 import Glb.Proofs.Strutil
 
 namespace Glb.Tie.Strutil
@@ -35,5 +36,8 @@ theorem repl_neutral : QuoteNeutral Generated.shellEscapeNew :=
 theorem tilde_prefix_eq : Generated.tildePrefix = [126, 47] := by decide
 theorem tilde_keep_eq : Generated.tildeKeep = Generated.tildePrefix := by decide
 theorem tilde_slice_eq : Generated.tildeSliceLow = Generated.tildePrefix.length := by decide
+
+/-- the extractor of this area recognised the source as it is on this run (a refusal removes `ok`) -/
+theorem extractor_ok : Glb.Generated.StatusStrutil.ok = () := rfl
 
 end Glb.Tie.Strutil
